@@ -248,6 +248,13 @@ def replay(rec):
         print("replay: %s" % ("violation reproduced" if run.violations else "no violation on the current tree"))
         return 1 if run.violations else 0
     pid = inst["id"][:-4]
+    if pid.startswith("seq/"):
+        # end-to-end sequence instances are rebuilt as a family (each needs its checks-on twin)
+        progs, insts = seq_insts(run, cfg)
+        insts = [i for i in insts if i["id"] == inst["id"]]
+        common.validate_insts(run, "Soundness", insts, cfg="Soundness_C03seq.cfg", label="replay", props=["C03", "C16"], programs=progs)
+        print("replay: %s" % ("violation reproduced" if run.violations else "no violation on the current tree"))
+        return 1 if run.violations else 0
     progs = [p for p in programs("thorough", cfg["bitlength"]) if p["id"] in (pid + "/ign", pid + "/plain")]
     traces = common.run_programs(cfg, progs)
     byid = {t["id"]: t for t in traces}
